@@ -24,6 +24,8 @@ func lifeTokens(log []string) (string, []string) {
 			toks = append(toks, "C"+e[len("CONNECTED flag="):])
 		case strings.HasPrefix(e, "DISCONNECTED flag="):
 			toks = append(toks, "D"+e[len("DISCONNECTED flag="):])
+		case e == "connect-call":
+			toks = append(toks, "CALL")
 		case e == "connect-ret ok":
 			toks = append(toks, "OK")
 		case e == "connect-ret err":
@@ -89,6 +91,9 @@ func (c *Ctx) judgeLife(prop string, sc LifeScenario, r LifeResult, tag string) 
 		c.SpecFail("spec", desc, "", "goroutines of the connection remain after DISCONNECTED: "+strings.Join(r.Leaked, " | "), rp)
 	}
 	for _, e := range extra {
+		if strings.HasPrefix(e, "stale-") {
+			c.SpecFail("spec", desc, "", "the fresh connection is affected by the previous one: "+e, rp)
+		}
 		if strings.HasPrefix(e, "tracker ") && sc.Track {
 			// after a reconnect the tracker holds just the client itself
 			if !strings.Contains(e, "nicks=[N(6d65,") || !strings.HasSuffix(e, "|chans=[]") || strings.Count(e, "N(") != 2 {
@@ -145,6 +150,12 @@ func c06(c *Ctx) {
 			tags = append(tags, "cause="+cause)
 		}
 	}
+	// the ping ticker fires (every millisecond) while the teardown is in progress: closing the socket is slow
+	for k := 0; k < c.Pick(4, 16); k++ {
+		scs = append(scs, LifeScenario{Cause: causes[c.R.N(len(causes))], Closers: c.R.Range(1, 2), Flood: true, Track: c.R.Bool(), PingFreqMs: 1,
+			SlowCloseMs: c.R.Range(5, 40), GoMaxProcs: procs[k%4]})
+		tags = append(tags, "ping-ticks-during-slow-teardown")
+	}
 	// Connect from another goroutine while a Close is still waiting for a running handler
 	for k := 0; k < c.Pick(3, 12); k++ {
 		scs = append(scs, LifeScenario{Cause: "close", Closers: 1, Flood: true, Track: c.R.Bool(), ConnectDuringClose: true, GoMaxProcs: procs[k%4]})
@@ -175,7 +186,16 @@ func c07(c *Ctx) {
 		scs = append(scs, LifeScenario{Cause: cause, Closers: 1, Flood: true, HandlerPanics: true, InBacklog: 3})
 		tags = append(tags, "handler-panics-during-teardown")
 	}
-	tags = append(tags[:len(tags)-3], append([]string{"corpus/in-backlog", "corpus/out-backlog", "corpus/reconnect-in-handler", "corpus/cancel-blocked-handler", "corpus/mixed-backlog-eof", "corpus/mixed-backlog-close"}, tags[len(tags)-3:]...)...)
+	scs = append(scs,
+		LifeScenario{Cause: "close", Closers: 1, Flood: true, InBacklog: 300, InSegments: 3, Reconnect: "goroutine", Cycles: 1},
+		LifeScenario{Cause: "eof", Closers: 1, Flood: true, Track: true, InBacklog: 300, InSegments: 2, BacklogKind: "mixed", Reconnect: "handler", Cycles: 1},
+		LifeScenario{Cause: "close", Closers: 1, Flood: true, OutBacklog: 100, OutFrom: "handler", SlowServer: true, Reconnect: "goroutine", Cycles: 1})
+	tags = append(tags, "leftovers/in-backlog+reconnect", "leftovers/mixed-backlog+reconnect", "leftovers/out-backlog+reconnect")
+	for _, cause := range []string{"close", "eof", "cancel", "writeerr"} {
+		scs = append(scs, LifeScenario{Cause: cause, Closers: 1, Flood: true, HandlerAsksFlag: true, InBacklog: c.R.N(5)})
+		tags = append(tags, "handler-asks-Connected-during-teardown")
+	}
+	tags = append(tags[:len(tags)-10], append([]string{"corpus/in-backlog", "corpus/out-backlog", "corpus/reconnect-in-handler", "corpus/cancel-blocked-handler", "corpus/mixed-backlog-eof", "corpus/mixed-backlog-close"}, tags[len(tags)-10:]...)...)
 	for k := 0; k < c.Pick(24, 200); k++ {
 		sc := LifeScenario{Cause: causes[c.R.N(len(causes))], Closers: c.R.Range(1, 3), Flood: c.R.P(4, 5), Track: c.R.Bool(), GoMaxProcs: []int{1, 2, 4, 16}[c.R.N(4)]}
 		tag := "plain"
@@ -187,11 +207,18 @@ func c07(c *Ctx) {
 				sc.BacklogKind = "mixed"
 				sc.Track = true
 			}
+			sc.HandlerAsksFlag = c.R.P(1, 3)
+			if c.R.Bool() { // whatever is left in the queues must not reach the next connection
+				sc.Reconnect, sc.Cycles = c.R.Pick("handler", "goroutine"), 1
+			}
 			tag = fmt.Sprintf("in-backlog>64=%v/%s", sc.InBacklog > 64, sc.BacklogKind)
 		case 1:
 			sc.OutBacklog = backs[c.R.N(len(backs))]
 			sc.OutFrom = c.R.Pick("handler", "user")
 			sc.SlowServer = c.R.P(2, 3)
+			if c.R.Bool() {
+				sc.Reconnect, sc.Cycles = c.R.Pick("handler", "goroutine"), 1
+			}
 			tag = fmt.Sprintf("out-backlog>64=%v/%s", sc.OutBacklog > 64, sc.OutFrom)
 		case 2:
 			sc.Reconnect = c.R.Pick("handler", "goroutine")
@@ -213,6 +240,12 @@ func c07(c *Ctx) {
 				sc.Cause = "eof"
 			}
 			sc.Flood = true // rate limiting of the registration lines is C10's subject; it only slows these scenarios down
+		}
+		if sc.BacklogKind == "mixed" {
+			// the built-in handlers of these lines answer with MODE / WHO lines; with flood control on each of those is
+			// held for seconds, recv cannot hand over the next line, and the EOF / error behind the backlog is not even
+			// read within the scenario's time limit: that is C10's rate limit at work, not a teardown that hangs
+			sc.Flood = true
 		}
 		if !sc.Flood && sc.OutBacklog > 8 {
 			sc.OutBacklog = 8 // rate limiting would hold each line for seconds
